@@ -57,9 +57,21 @@ def _sleep(seconds=0):
         ENV.now += max(0.0, float(seconds))
 
 
+MONO_OFFSET = T0 - 54321.0     # time.monotonic() and time.perf_counter() are different clocks than time.time():
+PERF_OFFSET = T0 - 987.0       # mixing them up must be visible
+
+
+def _mono():
+    return _now() - MONO_OFFSET
+
+
+def _perf():
+    return _now() - PERF_OFFSET
+
+
 FAKE_TIME = types.SimpleNamespace(
-    time=_now, monotonic=_now, perf_counter=_now, sleep=_sleep,
-    time_ns=lambda: int(_now() * 1e9), monotonic_ns=lambda: int(_now() * 1e9),
+    time=_now, monotonic=_mono, perf_counter=_perf, sleep=_sleep,
+    time_ns=lambda: int(_now() * 1e9), monotonic_ns=lambda: int(_mono() * 1e9),
     strftime=_real_time.strftime, gmtime=_real_time.gmtime, localtime=_real_time.localtime,
     struct_time=_real_time.struct_time, mktime=_real_time.mktime, ctime=_real_time.ctime,
     timezone=_real_time.timezone, altzone=_real_time.altzone, daylight=_real_time.daylight, tzname=_real_time.tzname,
@@ -195,9 +207,9 @@ def install(threads=True):
             elif val is _real_time.sleep:
                 setattr(mod, attr, _sleep)
             elif val is _real_time.monotonic:
-                setattr(mod, attr, _now)
+                setattr(mod, attr, _mono)
             elif val is _real_time.perf_counter:
-                setattr(mod, attr, _now)
+                setattr(mod, attr, _perf)
             elif val is _real_uuid.uuid4:
                 setattr(mod, attr, _uuid4)
     if threads:
@@ -376,12 +388,14 @@ def mk_loop_client_class(wire, owner):
             self.chunk_size = chunk_size
             self.sock_name = None
             self._closed = True
+            self._has_connection_error = False   # like the real client: no implicit reconnect after a connection error
             self.connect_count = 0
             self.posts = 0
             self._wire.clients.append(self)
 
         # -- connection life cycle
         def connect(self):
+            self._has_connection_error = False
             if self._wire.connect_hook is not None:
                 self._wire.connect_hook(self)
             self._closed = False
@@ -410,13 +424,24 @@ def mk_loop_client_class(wire, owner):
             return mk_headers(h)
 
         def post_message_to(self, path, created_message, msg='', request_manipulator=None, validate=True):  # noqa: ARG002
-            if self.is_closed():
+            if self.is_closed() and not self._has_connection_error:
                 self.connect()
+            if self.is_closed():
+                raise http.client.NotConnected
             xml_request = SoapClient._prepare_message(created_message, request_manipulator, validate)
             self.posts += 1
             started = _now()
             try:
                 status, reason, body = self._wire.post(self, path, xml_request, self._headers())
+            except (OSError, http.client.HTTPException) as ex:
+                if not isinstance(ex, HTTPReturnCodeError):
+                    # the real client closes the connection and refuses to reconnect implicitly
+                    self._closed = True
+                    self.sock_name = None
+                    self._has_connection_error = True
+                    if not isinstance(ex, (ConnectionRefusedError, TimeoutError)):
+                        raise http.client.NotConnected from ex
+                raise
             finally:
                 self.roundtrip_time = _now() - started
             if isinstance(body, str):
@@ -435,6 +460,8 @@ def mk_loop_client_class(wire, owner):
             return message_data
 
         async def async_post_message_to(self, path, created_message, msg='', request_manipulator=None, validate=True):
+            if self.is_closed():
+                self._has_connection_error = False   # the real async client re-connects implicitly
             return self.post_message_to(path, created_message, msg, request_manipulator, validate)
 
         def get_from_url(self, url, msg=''):  # noqa: ARG002
